@@ -29,6 +29,8 @@ ASSUMPTIONS = [
     'uncompressed size = length of the decompressed file found on disk after the save (reference-side)',
     'which Manifests a save rewrote is observed through sys.addaudithook open-for-write events',
     'Manifests not rewritten by an unforced save are DONT_CARE; old-ebuild package Manifests are judged under C19',
+    'W1 watermark/format source: arguments of save_manifests() / constructor only / constructor with conflicting values '
+    'plus explicit save arguments (the explicit ones are the watermark of that save)',
 ]
 
 TOP = scen.TOP
@@ -179,7 +181,17 @@ def do_save(root, step, holder=None):
         if holder is not None and holder.get('m') is not None:
             m = holder['m']
         else:
-            m = gem.loader(root, TOP, hashes=['SHA1'])
+            # where the watermark / format come from: 'save' = arguments of save_manifests() (default), 'ctor' = given
+            # to the constructor only, 'both' = the constructor got CONFLICTING values and the explicit arguments
+            # of save_manifests() must win (its documented contract)
+            src = step.get('src', 'save')
+            kw = {}
+            if src == 'ctor':
+                kw = dict(compress_watermark=step['wm'], compress_format=step['fmt'])
+            elif src == 'both':
+                kw = dict(compress_watermark=(0 if (step['wm'] or 0) > 0 else 10 ** 6),
+                          compress_format=('bz2' if step['fmt'] != 'bz2' else 'xz'))
+            m = gem.loader(root, TOP, hashes=['SHA1'], **{k: v for k, v in kw.items() if v is not None})
             if holder is not None:
                 holder['m'] = m
         if step['edit']:
@@ -187,7 +199,10 @@ def do_save(root, step, holder=None):
             with open(p, 'ab') as f:
                 f.write(b'+')
             m.update_entries_for_directory('')
-        m.save_manifests(force=step['force'], compress_watermark=step['wm'], compress_format=step['fmt'])
+        if step.get('src', 'save') == 'ctor':
+            m.save_manifests(force=step['force'])
+        else:
+            m.save_manifests(force=step['force'], compress_watermark=step['wm'], compress_format=step['fmt'])
         return 0
     with seams.write_audit(root) as events:
         o = gem.call(go)
@@ -348,16 +363,20 @@ def run_shard(spec, tier, seed, scratch):
         for pad, chain in ((0, False), (2, False), (0, True)):
             sizes = sizes_for(start, pad, chain)
             wms = sorted({0, sizes[-1] + 1} | {s + d for s in sizes for d in (-1, 0, 1)})
-            for wm, force, edit in itertools.product(wms, (True, False), (None, 'd/e/f2', 'g/f3')):
+            for wm, force, edit, src in itertools.product(wms, (True, False), (None, 'd/e/f2', 'g/f3'),
+                                                          ('save', 'ctor', 'both')):
                 if not force and edit is None:
                     continue
-                step = dict(edit=edit, force=force, wm=wm, fmt=fmt)
+                if src != 'save' and (pad or chain) and tier == 'quick':
+                    continue
+                step = dict(edit=edit, force=force, wm=wm, fmt=fmt, src=src)
+                stats.counters['W1_src_' + src] += 1
                 # after an edit that appends one byte the sizes stay the same (hash lengths fixed), so the
                 # boundary watermarks computed above remain exact
                 case = {'part': 'W', 'start': start, 'pad': pad, 'chain': chain, 'steps': [step]}
                 n0 = stats.counters['W_saves_rewriting']
                 vs = check_W(case, scratch, stats)
-                stats.case(('W1', start, pad, chain, wm, force, edit, fmt), nontrivial=stats.counters['W_saves_rewriting'] > n0)
+                stats.case(('W1', start, pad, chain, wm, force, edit, fmt, src), nontrivial=stats.counters['W_saves_rewriting'] > n0)
                 if len(stats.samples) < 1 and wm in sizes:
                     stats.sample({'part': 'W', 'start': start, 'sizes': sizes, 'step': step})
                 for x in vs:
@@ -385,6 +404,9 @@ def finish(total, tier):
     if total.counters.get('W_saves_rewriting', 0) < 500:
         errs.append('vacuity: fewer than 500 saves rewrote a sub-Manifest')
     k = ' '.join(total.outcomes)
+    for src in ('ctor', 'both'):
+        if not total.counters.get('W1_src_' + src):
+            errs.append(f'vacuity: no save with watermark source {src!r}')
     for need in ('T/dir/ret', 'T/dir/exc:ManifestMismatch', 'T/find_dist/ret', 'W/rewritten='):
         if need not in k:
             errs.append(f'vacuity: {need} not observed')
